@@ -38,7 +38,7 @@ def _convert(wb, fmt, pretty, kwargs=None):
     inp, kw = render.render(wb, fmt)
     kw["pretty_print"] = pretty
     kw.update(kwargs or {})
-    return conv.convert_case({"input": inp, "kwargs": kw, "events": False})
+    return conv.convert_case({"input": inp, "kwargs": kw, "events": False, "allow_malformed": True})
 
 
 def run_doc(job):
